@@ -4,7 +4,7 @@ INVARIANTS Emit PathsResolve NormRoundTrip OptionLaws SliceClosedForm ReplaceLaw
 CHECK_DEADLOCK FALSE
 CONSTANTS
   Mode = "seg"
-  MaxSegs = 3
+  MaxSegs = 4
   Big = TRUE
   MaxArr = 5
   InclStepOverflow = FALSE
